@@ -286,10 +286,11 @@ Fixpoint wf_expr (lex : bool) (e : expr) {struct e} : bool :=
       wf_expr lex e1 && match a with Some x => wf_expr lex x | None => true end
       && match b with Some x => wf_expr lex x | None => true end
       && match c with Some x => wf_expr lex x | None => true end
-  (* function calls, array and map literals are compiled (and covered by C07's
-     compile_always_checks, which does not look at wf_expr) but compile_correct (C03) is NOT
-     proved for them: excluded here *)
-  | ECall _ _ | EArr _ | EMap _ => false
+  (* `super()` is not a registered function: it renders the parent block (C05 / C03 `vm` family) *)
+  | ECall name kw => negb (str_eqb name s_super) && forallb (fun ke => wf_expr lex (snd ke)) kw
+  (* array and map literals are compiled (and covered by C07's compile_always_checks, which does
+     not look at wf_expr) but compile_correct (C03) is NOT proved for them: excluded here *)
+  | EArr _ | EMap _ => false
   end.
 
 Definition wf_kws (lex : bool) (kw : list (str * expr)) : bool :=
